@@ -18,6 +18,7 @@ import EaselModel.Alphabet.IntScoreLemmas
 import EaselModel.Alphabet.Round4Lemmas
 import EaselModel.Alphabet.History2Lemmas
 import EaselModel.Alphabet.GuessCutoffLemmas
+import EaselModel.Alphabet.SqCopyLemmas
 /-! # C08 — property theorems (statements + glue only; lemmas live in Alphabet/*.lean)
 
 `G.dna`, `G.rna`, `G.amino`, `G.coins`, `G.dice` are the tables dumped from the code under check on this run
@@ -713,6 +714,38 @@ theorem count_nondegenerate_codes (a : Alphabet) (hK : a.K + 4 ≤ a.Kp) (ct : L
     (x ≤ a.K → ct.length ≤ x → a.count ct x wt = none) ∧
     ((x = a.Kp - 2 ∨ x = a.Kp - 1) → a.count ct x wt = some ct) :=
   count_simple a hK ct wt x
+
+/-! ## round 4: `esl_sq_Copy` between text and digital mode -/
+
+/-- **`esl_sq_Copy`, all four mode combinations** (with the validation pre-pass of fix 6b1a313): text → digital is eslOK iff
+    every character is a character of the alphabet (ignored characters and bytes ≥ 0x80 refused, as in `esl_sq_Digitize`);
+    then the copy holds one code per character and `n` = text length = digital length; otherwise eslEINVAL and an emptied
+    `dst`. Text → text copies; digital → text spells each code; digital → digital copies when the alphabet types agree, else
+    the eslEINCOMPAT exception. Every eslOK copy passes the length test of `esl_sq_Validate` (`Copied.consistent`). -/
+theorem sq_copy_spec (a : Alphabet) (hKp : a.Kp ≤ 250) (txt codes : List Nat) (hs : SENTINEL ∉ codes)
+    (hv : ∀ x ∈ codes, x < a.sym.length) (sameType : Bool) :
+    (Sq.sqCopy true a (.inl txt) true sameType = some (.ok (
+       if txt.all a.cIsValid then (.ok, { n := txt.length, buf := mkDsq (txt.map a.inmapAt) }) else (.einval, Sq.reused true))) ∧
+     (txt.all a.cIsValid = true → ({ n := txt.length, buf := mkDsq (txt.map a.inmapAt) } : Sq.Copied).consistent true = true)) ∧
+    Sq.sqCopy true a (.inl txt) false true = some (.ok (.ok, { n := txt.length, buf := txt })) ∧
+    Sq.sqCopy true a (.inr (mkDsq codes, codes.length)) false true = some (.ok (.ok, { n := codes.length, buf := codes.map a.symAt })) ∧
+    Sq.sqCopy true a (.inr (mkDsq codes, codes.length)) true true = some (.ok (.ok, { n := codes.length, buf := mkDsq codes })) ∧
+    Sq.sqCopy true a (.inr (mkDsq codes, codes.length)) true false = some (.error .eincompat) ∧
+    ({ n := codes.length, buf := mkDsq codes } : Sq.Copied).consistent true = true ∧
+    ({ n := codes.length, buf := codes.map a.symAt } : Sq.Copied).consistent false = true :=
+  ⟨⟨(Sq.sqCopy_text_digital a hKp txt sameType).1, (Sq.sqCopy_text_digital a hKp txt sameType).2.1⟩,
+   Sq.sqCopy_others a txt codes hs hv true⟩
+
+/-- why the pre-pass is needed (the defect repaired in 6b1a313): without it, a text with a character the alphabet ignores is
+    copied with eslOK and `n` = 10 although only 8 codes were written — the object fails `esl_sq_Validate`; with it: eslEINVAL -/
+example :
+    Sq.sqCopy false (G.dna.setIgnored (str " \t")) (.inl (str "AC GT ACGT")) true true =
+      some (.ok (.ok, { n := 10, buf := mkDsq [0, 1, 2, 3, 0, 1, 2, 3] })) ∧
+    ({ n := 10, buf := mkDsq [0, 1, 2, 3, 0, 1, 2, 3] } : Sq.Copied).consistent true = false ∧
+    Sq.sqCopy true (G.dna.setIgnored (str " \t")) (.inl (str "AC GT ACGT")) true true = some (.ok (.einval, Sq.reused true)) ∧
+    Sq.sqCopy true (G.dna.setIgnored (str " \t")) (.inl (str "ACGTACGT")) true true =
+      some (.ok (.ok, { n := 8, buf := mkDsq [0, 1, 2, 3, 0, 1, 2, 3] })) := by
+  decide +kernel
 
 /-! ## round 4: more tables regenerated from the tree -/
 
